@@ -237,7 +237,7 @@ func (e *Engine) checkProperty(prop string, o runOpts) int {
 					rn++
 					go func(c *Ctx, g *Goal) {
 						rsem <- struct{}{}
-						discharge(c, []*Goal{g}, dischargeOpts{Timeout: 3 * o.Timeout, All: o.All, Workdir: o.Workdir, Par: 1})
+						discharge(c, []*Goal{g}, dischargeOpts{Timeout: 3 * o.Timeout, All: o.All, Workdir: o.Workdir, Par: 1, Split: true})
 						g.Retried = true
 						<-rsem
 						rdone <- struct{}{}
@@ -384,7 +384,11 @@ func firstLine(s string) string {
 
 func matchKnown(kfs []knownFinding, prop, goal string) *knownFinding {
 	for i := range kfs {
-		if kfs[i].Prop == prop && kfs[i].Obligation == goal {
+		hasProp := false
+		for _, p := range strings.Split(kfs[i].Prop, ",") {
+			hasProp = hasProp || p == prop
+		}
+		if hasProp && kfs[i].Obligation == goal {
 			return &kfs[i]
 		}
 	}
